@@ -8,7 +8,7 @@ THEOREMS = ['C07_db_refines_list_spec', 'C07_db_refines_list_spec_from_init', 'C
             'C07_match_binds_pattern', 'C07_ids_invariant', 'C07_nothing_raises', 'C07_compiled_updates_are_list_operations',
             'C07_compiled_refines_list_spec', 'C07_compiled_run_is_cursor_history',
             'C07_open_history_is_history', 'C07_open_assert_stores_value', 'C07_open_bindings_are_the_answer',
-            'C07_open_no_lost_update']
+            'C07_open_no_lost_update', 'C07_retract_answer_is_stored', 'C07_clear_then_resume']
 RULE = ('histories of 3-30 operations (asserta/assertz through the builtin, through a goal held in a bound variable, '
         'through a compiled clause, and through YP.assert_fact; retract taken for k answers then closed or run to '
         'exhaustion; retractall; queries through YP.query, a compiled clause and call/1; clear) over 1-3 predicates of '
@@ -67,7 +67,18 @@ def gen(rng, tier):
     # clause's own Variable objects
     for i in range(60 if tier == 'quick' else 1200):
         cases.append(D.decorate_py(rng, D.gen_dbprog(rng, loopy=0.5)))
-    return cases
+    # round 4: size classes of the fact store (0-3, about 16, 32-64 facts; first arguments of every kind; bound and unbound
+    # first arguments in queries and retracts); clear() - API or Python predicate - while queries and retracts are suspended
+    extra = [D.gen_big_history(rng) for i in range(40 if tier == 'quick' else 500)]
+    extra += [D.gen_clear_history(rng) for i in range(40 if tier == 'quick' else 600)]
+    if tier != 'quick':
+        # thresholds beyond 64 facts (thorough tier only: the printed read-backs are large)
+        big = [D.gen_big_history(rng, sizes=[100, 127, 128, 129, 200, 255, 256, 257]) for i in range(40)]
+        for c in big:
+            c['kind'] = 'events'
+        extra += big
+    extra += [D.gen_dbprog_grown(rng, loopy=0.5) for i in range(30 if tier == 'quick' else 500)]
+    return D.spread(cases, extra)
 
 def builtin_corpus():
     a, b = ['a', 'a'], ['a', 'b']
